@@ -174,9 +174,11 @@ PROPS = {
                 worlds=lambda t, s: [W.gen_world_dup_path(Rng(s, "c12-dup", 0))] + worlds_default(t, s, "c12", 300, 6000, tweak_threads)),
     "C14": dict(module="TB.Props.C14", theorems=["C14_abort", "C14_pass2_ops", "C14_noflag"], clauses=["c14-"],
                 worlds=lambda t, s: [W.gen_world_c14(Rng(s, "c14", i)) for i in range(400 if t == "quick" else 8000)]),
-    "C15": dict(module="TB.Props.C15", theorems=["C15_sum", "C15_run", "C15_dedup"], clauses=["c15-"], worlds=lambda t, s: worlds_default(t, s, "c15", 300, 6000, tweak_threads)),
+    "C15": dict(module="TB.Props.C15", theorems=["C15_sum", "C15_run", "C15_dedup"], clauses=["c15-"], worlds=lambda t, s: worlds_default(t, s, "c15", 300, 6000, tweak_threads),
+                runner=lambda ws: run_with_cli(ws, 60 if len(ws) <= 1000 else 600), with_bin=True),
     "C16": dict(module="TB.Props.C16", theorems=["C16_empty", "C16_validate", "C16_piece_total_partial"], clauses=["c16-", "c03-", "c12-"],
-                worlds=lambda t, s: [W.gen_world_c16(Rng(s, "c16", i), i) for i in range(400 if t == "quick" else 8000)]),
+                worlds=lambda t, s: [W.gen_world_c16(Rng(s, "c16", i), i) for i in range(400 if t == "quick" else 8000)],
+                runner=lambda ws: run_with_cli(ws, 66 if len(ws) <= 1000 else 660), with_bin=True),
     "C13": dict(module="TB.Props.C13", theorems=["C13_all_accounted", "C13_local", "C13_found_all_ok"], clauses=["c13-", "c01-", "c16-"], worlds=fault_worlds),
     "C11": dict(module="TB.Props.C11", theorems=["C11_replay", "C11_prefix_sound"], clauses=["c11-", "c02-", "c01-"], worlds=crash_worlds, runner=run_crash_cases),
     "C17": dict(module="TB.Props.C17", theorems=["C17_dedup_perm"], clauses=["c17-", "c01-", "c02-", "c03-", "c04-", "c12-"], worlds=meta_worlds, post=compare_groups),
@@ -205,7 +207,7 @@ def run(pid, tier, seed, replay=None, props=None):
         cfg["module"], " && lake env leanchecker " + cfg["module"] if tier == "thorough" else "")
     known = E.load_known()
     E.proof_stage(res, cfg["module"], cfg["theorems"], tier)
-    ok, out = C.harness_build()
+    ok, out = C.harness_build(with_bin=bool(cfg.get("with_bin")))
     if not ok:
         p = E.write_replay(pid, "harness-build", {"what": "the harness does not build against /repo's working tree", "output": out[-4000:]})
         res.violations.append((p, "no-failing-input-found"))
@@ -354,6 +356,45 @@ def run_exec_cases(worlds):
         r.exec_stats = el[1:]
         cases.append(c)
     return cases
+
+def run_with_cli(worlds, ncli):
+    """the usual run cases, plus the real command-line binary on the first `ncli` single-threaded worlds: its progress
+    lines, its handling of unloadable torrents and bad arguments and the tree it leaves are compared with the
+    library run under the harness (which the model is tied to)"""
+    cases = run_worlds(worlds)
+    # (the command line needs at least one --torrents value: an empty list cannot be expressed there)
+    sel = [c for c in cases if c.result.world.threads <= 1 and not c.result.world.faults and c.result.world.crash is None and c.result.world.docs][:ncli]
+    with cf.ThreadPoolExecutor(max_workers=C.NCPU) as ex:
+        clis = list(ex.map(lambda c: W.execute_cli(c.result.world), sel))
+    extra = []
+    for c, r in zip(sel, clis):
+        h = c.result
+        fails = []
+        n_unloadable = sum(1 for x in h.loaded if x != "ok")
+        if r.rc != 0:
+            fails.append("c16-cli-exit")
+        if r.unable != n_unloadable:
+            fails.append("c16-cli-skip")                      # every unloadable torrent reported, the others unaffected
+        if h.result == "err" and not r.error_line:
+            fails.append("c16-cli-error-not-reported")
+        if h.result == "ok":
+            if r.progress_total is not None and r.progress_total != len(r.counters):
+                fails.append("c15-cli-lines")                   # one progress line per piece
+            if [sum(k) for k in r.counters] != list(range(1, len(r.counters) + 1)):
+                fails.append("c15-cli-sum")
+            if len(r.counters) != len(h.counters):
+                fails.append("c15-cli-total")
+        tree_c = {p: v[0] for p, v in r.after_files.items()}
+        tree_h = {p: v[0] for p, v in h.after_files.items()}
+        if tree_c != tree_h or sorted(r.after_dirs) != sorted(h.after_dirs):
+            r.world = h.world
+            if fixpoint_tree(h) != fixpoint_tree(r):
+                fails.append("c16-cli-tree")
+        k = C.Case(c.line + " CLI", "cli rc=%s lines=%d unable=%d" % (r.rc, len(r.counters), r.unable),
+                   ("agree " if not fails else "DISAGREE ") + ("prop-ok" if not fails else "PROPFAIL:" + ",".join(fails)) + " cli", tag="cli:" + (h.world.tag or "world"))
+        k.result = h
+        extra.append(k)
+    return cases + extra
 
 PROPS["C05"] = dict(module="TB.Props.C05", theorems=["C05_once", "C05_deadlock_free", "C05_final", "C05_measure_decreases", "C05_terminates"],
                     clauses=["c05-", "c16-"],
